@@ -16,8 +16,10 @@ pub trait OrdererStore<ID> {
             r is Ok ==> r->Ok_0 == all_in(keys@, old(self).ready_set());
     fn mark_ready(&mut self, id: ID) -> (r: Result<bool, Self::Error>)
         ensures
+            // a new item is put on the ready queue; an item that is ready already is queued again when it was taken from the
+            // queue before ("not swallow items when they got re-processed", p2panda-store/src/orderer/sqlite.rs) and otherwise left
             r is Ok ==> final(self).ready_set() == old(self).ready_set().insert(id)
-                && final(self).queue() == (if old(self).ready_set().contains(id) { old(self).queue() } else { old(self).queue().push(id) }),
+                && (final(self).queue() == old(self).queue().push(id) || (old(self).ready_set().contains(id) && final(self).queue() == old(self).queue())),
             r is Err ==> final(self).ready_set() == old(self).ready_set() && final(self).queue() == old(self).queue();
     fn mark_pending(&mut self, id: ID, dependencies: Vec<ID>) -> (r: Result<bool, Self::Error>)
         requires dependencies@.to_set() == deps_fn(id),
@@ -34,10 +36,10 @@ pub fn verif_hashset_into_elems<T>(s: HashSet<T>) -> (r: Vec<T>)
     ensures r@.to_set() == s@, r@.no_duplicates(), forall|x: T| #[trigger] r@.contains(x) <==> s@.contains(x)
 { unimplemented!() }
 
-// ---- the property: an item is released only after every one of its dependencies, and at most once -----------------------
+// ---- the property: an item is released only after every one of its dependencies ---------------------------------------------
+// (q = everything ever put on the ready queue, in order; a re-processed item may occur more than once)
 pub open spec fn release_inv<ID>(ready: Set<ID>, q: Seq<ID>) -> bool {
     &&& ready == q.to_set()
-    &&& q.no_duplicates()
     &&& forall|i: int, d: ID| 0 <= i < q.len() && #[trigger] deps_fn(q[i]).contains(d) ==> exists|j: int| 0 <= j < i && q[j] == d
 }
 
